@@ -1,23 +1,41 @@
 //! rvh: correspondence harness. Each sub-command drives the real roughenough code (library
 //! in-process, or the real binaries) and prints one case per line: `op \t args.. \t impl-output`.
 //! The Lean driver answers each line with a verdict (see /verif/lean/Rough/Driver).
+#[cfg(feature = "m_cfg")]
 mod cfg;
 mod client;
+#[cfg(feature = "m_codec")]
 mod codec;
+#[cfg(feature = "m_envelope")]
 mod envelope;
+#[cfg(feature = "m_keys")]
 mod keys;
+#[cfg(feature = "m_merkle")]
 mod merkle;
 mod procs;
+#[cfg(feature = "m_reqs")]
 mod reqs;
+#[cfg(feature = "m_resp")]
+mod resp;
+#[cfg(feature = "m_rig")]
 mod rig;
+#[cfg(feature = "m_srv")]
 mod srv;
+#[cfg(feature = "m_stats")]
 mod stats;
 mod util;
+mod wire;
 
 fn main() {
     let args: Vec<String> = std::env::args().collect();
+    #[cfg(feature = "m_cfg")]
     if args.len() >= 3 && args[1] == "cfgprobe" {
         cfg::probe(&args[2]);
+        return;
+    }
+    #[cfg(feature = "m_cfg")]
+    if args.len() >= 5 && args[1] == "cfgleakprobe" {
+        cfg::leak_probe(&args[2], &args[3], &args[4]);
         return;
     }
     if args.len() < 2 {
@@ -53,22 +71,36 @@ fn main() {
     let thorough = tier == "thorough";
     let ctx = Ctx { seed, thorough, shard, rest };
     match args[1].as_str() {
+        #[cfg(feature = "m_codec")]
         "codec" => codec::run(&ctx),
+        #[cfg(feature = "m_merkle")]
         "merkle" => merkle::run(&ctx),
+        #[cfg(feature = "m_srv")]
         "srv" => srv::run(&ctx),
+        #[cfg(feature = "m_keys")]
         "sign" => keys::run_sign(&ctx),
+        #[cfg(feature = "m_cfg")]
         "cfg" => cfg::run(&ctx),
+        #[cfg(feature = "m_cfg")]
+        "cfgleak" => cfg::run_leak(&ctx),
+        #[cfg(feature = "m_reqs")]
         "reqs" => reqs::run(&ctx),
+        #[cfg(feature = "m_resp")]
+        "respsend" => resp::run(&ctx),
         "startup" => procs::run_startup(&ctx),
         "workers" => procs::run_workers(&ctx),
         "shutdown" => procs::run_shutdown(&ctx),
         "client-real" => procs::run_client_real(&ctx),
         "procleak" => procs::run_procleak(&ctx),
+        #[cfg(feature = "m_envelope")]
         "envelope" => envelope::run(&ctx),
         "client-honest" => client::run_honest(&ctx),
         "client-forged" => client::run_forged(&ctx),
+        #[cfg(feature = "m_stats")]
         "stats" => stats::run(&ctx),
+        #[cfg(feature = "m_keys")]
         "ltk" => keys::run_ltk(&ctx),
+        #[cfg(feature = "m_keys")]
         "srep" => keys::run_srep(&ctx),
         "replay" => replay(&ctx),
         other => {
@@ -102,14 +134,26 @@ fn replay(ctx: &Ctx) {
         // the last column of a stored case is the old impl output; drop it
         let args = &parts[1..parts.len() - 1];
         match op {
+            #[cfg(feature = "m_codec")]
             "dec" | "disp" | "enc" => codec::replay_one(&mut out, op, args),
+            #[cfg(feature = "m_merkle")]
             "merkle" => merkle::replay_one(&mut out, args),
+            #[cfg(feature = "m_srv")]
             "srv" => srv::replay_one(&mut out, args),
+            #[cfg(feature = "m_cfg")]
             "cfg" => cfg::replay_one(&mut out, args),
+            #[cfg(feature = "m_reqs")]
             "req" => reqs::replay_one(&mut out, op, args),
+            #[cfg(feature = "m_resp")]
+            "respsend" => resp::replay_one(&mut out, args),
+            #[cfg(feature = "m_cfg")]
+            "cfgleak" => cfg::replay_leak(&mut out, args),
+            #[cfg(feature = "m_envelope")]
             "envenc" | "envdec" => envelope::replay_one(&mut out, op, args),
             "client" => client::replay_one(&mut out, args),
+            #[cfg(feature = "m_stats")]
             "stats" | "rep" => stats::replay_one(&mut out, op, args),
+            #[cfg(feature = "m_keys")]
             "sign" | "vrf" | "ltk" | "srep" => keys::replay_one(&mut out, op, args),
             _ => eprintln!("replay: unknown op {}", op),
         }
